@@ -165,10 +165,15 @@ def _canonical_names(body, j):
     uv = pn["upvars"].get(j["path"])
     cur = j.get("upvars") or []
     if uv and len(uv) == len(cur):
-        for u, nm in zip(cur, uv):
-            if u.get("name") != nm:
-                u["name_actual"] = u.get("name")
-                u["name"] = nm
+        act = [u.get("name") for u in cur]
+        common = set(act) & set(uv)
+        # only a *rename* is undone: the captures that kept their names must sit at the same positions (otherwise the capture
+        # list was reordered or changed, and position says nothing)
+        if all(((a in common) == (b in common)) and (a == b or a not in common) for a, b in zip(act, uv)):
+            for u, nm in zip(cur, uv):
+                if u.get("name") != nm:
+                    u["name_actual"] = u.get("name")
+                    u["name"] = nm
 
 
 class Body:
